@@ -1,7 +1,7 @@
 ---------------------------- MODULE SqlExpr ----------------------------
 (* SQL scalar semantics with three-valued logic over a small domain (C01, C07, C43).
 
-   An expression is a PREFIX TOKEN SEQUENCE; a token is [k |-> kind, v |-> int].  `Ev(e, row)` is the
+   An expression is a PREFIX TOKEN SEQUENCE; a token is [k |-> kind, v |-> int].  `Val(e, row)` is the
    SQL value of e on one row <<a, b, s, u>> of the table t (a, b integers, s, u short strings); it is computed by
    ONE right-to-left pass over the prefix sequence with a value stack (`Run`), which also yields the value of every
    sub-expression (`AllVals`).
@@ -18,7 +18,10 @@
        flattens and NON-associativity of the others, the division/modulo identity), and
      * per-state theorems relating the recursive evaluator to the DECLARATIVE reading of the SQL
        standard: IN = "some equality TRUE / all FALSE / else NULL", NOT IN = NOT(IN), row-value IN,
-       BETWEEN = range test, De Morgan on the tree, CASE, LIKE prefix/suffix.                      *)
+       BETWEEN = range test, De Morgan on the tree, CASE, LIKE prefix/suffix, and the frame rule of UPDATE / DELETE
+       (rows whose criterion is FALSE or NULL are untouched, SET expressions read the old row).
+   Families: "c07" (IN / NOT IN), "c43" (statements over the ORM evaluator's operators, EmitSub), "c01" (rendering);
+   the smaller names in FamilyEx select one constituent set (development aid).                              *)
 EXTENDS Integers, Sequences, FiniteSets, TLC, Json, Randomization
 CONSTANTS Family,      \* which expression set is enumerated (string)
           Level,       \* 0 = quick-size sets, 1 = thorough-size sets
